@@ -286,6 +286,14 @@ pub fn run_op(op: &str, a: &[&str]) -> String {
                     Err(_) => "ERR".into(),
                     Ok(p) => format!("OK {} {} {} {}", p.data_rate() as u8, p.tx_power() as u8, hex(p.channel_mask().as_ref()), p.redundancy().raw_value()),
                 },
+                "chmask2" => match lorawan::maccommands::ChannelMask::<2>::new(&d) {
+                    Err(_) => "ERR".into(),
+                    Ok(m) => format!("OK {}", hex(m.as_ref())),
+                },
+                "chmask9" => match lorawan::maccommands::ChannelMask::<9>::new(&d) {
+                    Err(_) => "ERR".into(),
+                    Ok(m) => format!("OK {}", hex(m.as_ref())),
+                },
                 "devstatus" => match DevStatusAnsPayload::new(&d) {
                     Err(_) => "ERR".into(),
                     Ok(p) => format!("OK {} {}", p.battery(), p.margin()),
